@@ -200,8 +200,8 @@ def rule_tt_comm(ctx: Ctx) -> None:
     """TT-SYM: symmetric=True only for symmetric values.  TT-BUF: receive placeholders have the shape and dtype the source computed."""
     p = ctx.prog
     ctx.assumptions.add('A3')
-    ctx.rule('TT-SYM', 'triangular (symmetric=True) communication is used only for values that are symmetric matrices', floor=4)
-    ctx.rule('TT-BUF', 'receive placeholders of the inverse and gradient broadcasts have the sizes and dtype of the value the source computed', floor=8)
+    ctx.rule('TT-SYM', 'triangular (symmetric=True) communication is used only for values that are symmetric matrices', floor=11)
+    ctx.rule('TT-BUF', 'receive placeholders of the inverse and gradient broadcasts have the sizes and dtype of the value the source computed', floor=12)
     for tag, cls, flags in (('eigen', EIG, {'self.symmetric_factors': True, 'self.prediv_eigenvalues': False}),
                             ('eigen+prediv', EIG, {'self.symmetric_factors': True, 'self.prediv_eigenvalues': True}),
                             ('inverse', INV, {'self.symmetric_factors': True})):
@@ -949,8 +949,8 @@ def rule_gpt_layer(ctx: Ctx) -> None:
     """TT-GPT, SIB-DIM, ALIAS-GRAD (GPT), COH-PRIMARY, DOM-GATHER for GPTNeoXKFACEigenLayer."""
     p = ctx.prog
     ctx.assumptions |= {'A2', 'A3'}
-    ctx.rule('TT-GPT', 'the GPT-NeoX preconditioned gradient has the typed algebra of the unsharded layer on the primary rank and every rank ends with exactly its own shard', floor=12)
-    ctx.rule('SIB-DIM', 'gather and split of the gradient use the same dimension (last for input-parallel, first for output-parallel); scatter buffers match the shards', floor=8)
+    ctx.rule('TT-GPT', 'the GPT-NeoX preconditioned gradient has the typed algebra of the unsharded layer on the primary rank and every rank ends with exactly its own shard', floor=16)
+    ctx.rule('SIB-DIM', 'gather and split of the gradient use the same dimension (last for input-parallel, first for output-parallel); scatter buffers match the shards', floor=9)
     ctx.rule('ALIAS-GRAD', 'preconditioned_grad / broadcast_grad never write in place into storage aliased with module.weight.grad / bias.grad', floor=12)
     ctx.rule('COH-PRIMARY', 'shards are gathered to, and results sent from, the same primary rank of the layer', floor=4)
     f = p.lookup_method(GPT, 'preconditioned_grad')
@@ -1032,7 +1032,7 @@ def rule_gpt_helper(ctx: Ctx) -> None:
     import re
     p = ctx.prog
     ctx.rule('TT-SHAPEFN', 'advertised factor shapes equal the shapes of the factors the helper computes', floor=8)
-    ctx.rule('DOM-GATHER', 'on the sharded side the gathered tensor (not the local shard) flows into the second-moment code, on the primary rank only', floor=6)
+    ctx.rule('DOM-GATHER', 'on the sharded side the gathered tensor (not the local shard) flows into the second-moment code, on the primary rank only', floor=14)
     ctx.rule('SIB-DUAL', 'reduce_a_factor / reduce_g_factor are mirror images: sharded factor -> primary rank on the data-parallel group, replicated factor -> stage peers', floor=1)
     for par in ('input', 'output'):
         for bias in (True, False):
@@ -1176,11 +1176,13 @@ def rule_alt_paths(ctx: Ctx) -> None:
         fl0 = helper_flags(True)
         tests = [n.test for n in p.nodes(f) if isinstance(n, ast.If) and (norm(n.test) not in fl0 or norm(n.test) in _VERIFIED_ALT) and not norm(n.test).startswith('self.has_bias')]
         for t in tests:
-            facts = _facts_of(t, p, cls)
+            # `if not <special-case test>: general else: special` is the same dispatch with the branches exchanged
+            neg = isinstance(t, ast.UnaryOp) and isinstance(t.op, ast.Not)
+            facts = _facts_of(t.operand if neg else t, p, cls)
             pname = [a for a in f.params if a != 'self'][0]
             res = {}
             for val in (True, False):
-                it, r = _call(ctx, cls, meth, {pname: arg}, helper_oracle(kind, True), {**fl0, norm(t): val})
+                it, r = _call(ctx, cls, meth, {pname: arg}, helper_oracle(kind, True), {**fl0, norm(t.operand if neg else t): val})
                 res[val] = (r, it)
             special, general = res[True][0], res[False][0]
             if not isinstance(special, TV) or not isinstance(general, TV):
